@@ -303,13 +303,16 @@ impl WalRecuperator {
         }
 
         // The undo of DROP is CREATE - restore from the saved instruction
-        if let Ok(create_table_instr) = CreateTableInstr::from_bytes(undo_bytes) {
+        // (A DROP no longer destroys the relation: if it is still there, there is nothing to restore.)
+        if let Ok(mut create_table_instr) = CreateTableInstr::from_bytes(undo_bytes) {
+            create_table_instr.if_not_exists = true;
             let instr = DdlInstruction::CreateTable(create_table_instr);
             self.ddl_executor.execute_instruction(&instr)?;
             return Ok(());
         }
 
-        if let Ok(create_index_instr) = CreateIndexInstr::from_bytes(undo_bytes) {
+        if let Ok(mut create_index_instr) = CreateIndexInstr::from_bytes(undo_bytes) {
+            create_index_instr.if_not_exists = true;
             let instr = DdlInstruction::CreateIndex(create_index_instr);
             self.ddl_executor.execute_instruction(&instr)?;
         }
